@@ -83,3 +83,9 @@ Theorem C19_name_bytes : forall ext a bs, ext_cstr ext a = Val bs ->
   (forall j, j < len bs -> StringFacts.nthb bs j <> 0) /\ StringFacts.nthb (m_bytes ext) (a - m_base ext + len bs) = 0.
 Proof. exact ext_cstr_spec. Qed.
 Print Assumptions C19_name_bytes.
+
+(* the provided Iterator methods are iterated next(): nth(k) yields the k-th in-use entry of the run to exhaustion *)
+Theorem C19_nth : forall fuel p m it items k,
+  elf_collect fuel p m it = (items, Val tt) -> rmap fst (elf_nth p m it k) = Val (nth_error items k).
+Proof. exact elf_nth_collect. Qed.
+Print Assumptions C19_nth.
